@@ -271,6 +271,7 @@ class Interp:
         self.w = world
         self.prog = program
         self.cfgmod = seams.sdk("config")
+        self.ctxmod = seams.sdk("context")
         self.exc = seams.sdk("exceptions")
         self.retries = seams.sdk("retries")
         self.waits = seams.sdk("waits")
@@ -452,6 +453,17 @@ class Interp:
         def fn(step_ctx):
             return self._user_fn(pos, st.get("fn", {}), "step", step_ctx.logger)
 
+        plain = not any(k in st for k in ("retry", "sem", "fserdes")) and not any(
+            a["do"] == "raise" for a in st.get("fn", {}).get("attempts", []))
+        if st.get("deco"):
+            # @durable_step: the operation takes its name from the decorated function
+            def named(step_ctx):
+                return fn(step_ctx)
+            named.__name__ = pos
+            bound = self.ctxmod.durable_step(named)()
+            return ctx.step(bound) if plain else ctx.step(bound, config=cfg)
+        if plain:
+            return ctx.step(fn, name=pos)  # no StepConfig at all: the SDK's defaults
         return ctx.step(fn, name=pos, config=cfg)
 
     def op_wait(self, ctx, st, pos, item):
@@ -462,7 +474,10 @@ class Interp:
         c = st.get("cfg") or {}
         cfg = C.CallbackConfig(timeout=C.Duration(seconds=c.get("timeout", 0)),
                                heartbeat_timeout=C.Duration(seconds=c.get("hb", 0)), serdes=self._fserdes(st, pos))
-        cb = ctx.create_callback(name=pos, config=cfg)
+        if not c and "fserdes" not in st:
+            cb = ctx.create_callback(name=pos)  # no CallbackConfig at all
+        else:
+            cb = ctx.create_callback(name=pos, config=cfg)
         self.w.rec("cb-created", pos=pos, callback_id=cb.callback_id)
         try:
             between = self.run_seq(ctx, st.get("between", []), pos + "/w", item)
@@ -500,6 +515,8 @@ class Interp:
             kw["serdes_payload"] = _x_serdes(self.serdes)
         if sd in ("result", "both"):
             kw["serdes_result"] = _x_serdes(self.serdes)
+        if not kw and "timeout" not in st:
+            return ctx.invoke(st.get("target", "fn-x"), mkvalue(st.get("payload", ["none"])), name=pos)  # no InvokeConfig
         cfg = C.InvokeConfig(timeout=C.Duration(seconds=st.get("timeout", 0)), **kw)
         return ctx.invoke(st.get("target", "fn-x"), mkvalue(st.get("payload", ["none"])), name=pos, config=cfg)
 
@@ -543,6 +560,14 @@ class Interp:
             return v
 
         fs = self._fserdes(st, pos)
+        if st.get("deco"):
+            def named(child_ctx):
+                return body(child_ctx)
+            named.__name__ = pos
+            bound = self.ctxmod.durable_with_child_context(named)()
+            if fs is not None:
+                return ctx.run_in_child_context(bound, config=self.cfgmod.ChildConfig(serdes=fs))
+            return ctx.run_in_child_context(bound)
         if fs is not None:
             return ctx.run_in_child_context(body, name=pos, config=self.cfgmod.ChildConfig(serdes=fs))
         return ctx.run_in_child_context(body, name=pos)
@@ -558,6 +583,8 @@ class Interp:
 
     def _completion(self, c):
         C = self.cfgmod
+        if c.get("preset"):
+            return getattr(C.CompletionConfig, c["preset"])()
         return C.CompletionConfig(min_successful=c.get("min"), tolerated_failure_count=c.get("tol"),
                                   tolerated_failure_percentage=c.get("pct"))
 
